@@ -742,34 +742,7 @@ theorem frame2_flvOne (key : Bool) (tag : Bytes) (s : St) (id : Nat) : Frame2 s 
   unfold flvOne
   cases s.getFlv id with
   | none => exact Frame2.refl s
-  | some sub =>
-    simp only
-    have h1 : Frame2 s (if sub.fresh then
-        (s.writeFlvAll sub (prologue s.flvGop)).modFlv id fun x =>
-          { x with fresh := false, waitKey := if GopCache.gopCount s.flvGop > 0 then false else sub.waitKey,
-                   pro := prologue s.flvGop,
-                   start := if (if GopCache.gopCount s.flvGop > 0 then false else sub.waitKey) then none
-                            else some (s.pubLog.length - 1) }
-      else s) := by
-      split
-      · exact Frame2.trans (frame2_writeFlvAll sub _ s) (frame2_modFlv _ _ _)
-      · exact Frame2.refl s
-    generalize (if sub.fresh then
-        (s.writeFlvAll sub (prologue s.flvGop)).modFlv id fun x =>
-          { x with fresh := false, waitKey := if GopCache.gopCount s.flvGop > 0 then false else sub.waitKey,
-                   pro := prologue s.flvGop,
-                   start := if (if GopCache.gopCount s.flvGop > 0 then false else sub.waitKey) then none
-                            else some (s.pubLog.length - 1) }
-      else s) = s1 at h1 ⊢
-    cases s1.getFlv id with
-    | none => exact h1
-    | some sub1 =>
-      simp only
-      split
-      · split
-        · exact Frame2.trans h1 (Frame2.trans (frame2_writeFlv _ _ _) (frame2_modFlv _ _ _))
-        · exact h1
-      · exact Frame2.trans h1 (frame2_writeFlv _ _ _)
+  | some sub => exact Frame2.trans (frame2_writeFlvAll sub _ s) (frame2_modFlv _ _ _)
 
 theorem frame2_flvLoop (key : Bool) (tag : Bytes) (s : St) : Frame2 s (flvLoop key tag s) := by
   unfold flvLoop
@@ -816,6 +789,13 @@ theorem init_inv (cfg : Cfg) : Inv (init cfg) := by
   refine ⟨by simp [init], by simp [init], by intro id _; simp [init, St.rb, St.bytes, St.log], by simp [init],
     by simp [init], ?_, by simp [init], by intro id h; cases h⟩
   intro _ ⟨x, hx, _⟩; simp [init] at hx
+
+theorem joinFlv_rinv (s : St) (id : Nat) (ws : Bool) (hI : Inv s) : Inv (joinFlv s id ws) := by
+  unfold joinFlv
+  refine inv_of_frame2 ?_ (frame2_writeFlv _ _ _)
+  refine ⟨hI.nodup, fun x hx => List.mem_cons_of_mem _ (hI.used x hx), ?_, ?_, hI.mfle, hI.pend, hI.size, by intro i h; cases h⟩
+  · intro i hi; exact hI.unused i (fun h => hi (List.mem_cons_of_mem _ h))
+  · intro x hx _; exact subOk_of_eq (s := s) rfl rfl rfl (hI.subs x hx (by simp))
 
 theorem step_inv (s : St) (e : Ev) (hI : Inv s) : Inv (step s e) := by
   cases e with
@@ -949,18 +929,12 @@ theorem step_inv (s : St) (e : Ev) (hI : Inv s) : Inv (step s e) := by
       simp only [step]
       split
       · exact hI
-      · refine inv_of_frame2 ?_ (frame2_writeFlv _ _ _)
-        refine ⟨hI.nodup, fun x hx => List.mem_cons_of_mem _ (hI.used x hx), ?_, ?_, hI.mfle, hI.pend, hI.size, by intro i h; cases h⟩
-        · intro i hi; exact hI.unused i (fun h => hi (List.mem_cons_of_mem _ h))
-        · intro x hx _; exact subOk_of_eq (s := s) rfl rfl rfl (hI.subs x hx (by simp))
+      · exact joinFlv_rinv s id false hI
     | wsflv =>
       simp only [step]
       split
       · exact hI
-      · refine inv_of_frame2 ?_ (frame2_writeFlv _ _ _)
-        refine ⟨hI.nodup, fun x hx => List.mem_cons_of_mem _ (hI.used x hx), ?_, ?_, hI.mfle, hI.pend, hI.size, by intro i h; cases h⟩
-        · intro i hi; exact hI.unused i (fun h => hi (List.mem_cons_of_mem _ h))
-        · intro x hx _; exact subOk_of_eq (s := s) rfl rfl rfl (hI.subs x hx (by simp))
+      · exact joinFlv_rinv s id true hI
     | record => exact hI
   | leave k id =>
     cases k with
